@@ -573,12 +573,20 @@ End Client.
 (* facts about it that need the key: it carries the unique identifier *)
 (* of the request; it verifies under the server-to-client key; both    *)
 (* supplied by whoever holds the key), and at what the client reported.*)
+(* For the SCION client with packet authentication (DRKey) a third    *)
+(* such fact: the datagram's packet authenticator, if it carries one  *)
+(* for the server's SPI and algorithm, verifies under the host-host   *)
+(* key - "comes from the queried server" with authentication enabled. *)
 (* ------------------------------------------------------------------ *)
 Record oview := {
   o_from_server : bool;      (* came from the queried server (SCION: queried ISD-AS and host, addressed to the client) *)
   o_payload : bytes;
   o_uid_ok : bool;           (* carries the request's unique identifier *)
-  o_auth_ok : bool           (* verifies under the server-to-client key *)
+  o_auth_ok : bool;          (* verifies under the server-to-client key *)
+  o_spao_ok : bool           (* SCION client holding the DRKey host-host key: the datagram does NOT carry, in an
+                                end-to-end extension, a packet authenticator for the server's SPI and algorithm
+                                whose MAC fails to verify over the received packet (true for every other datagram
+                                and every other client) *)
 }.
 
 Record oreq := {
@@ -602,7 +610,7 @@ Definition o_clauses (q : oreq) (d : oview) (t1 t2 : Z) : bool :=
   let org := o_t64 b 24 in
   let basic := t64_eqb org (oq_tx q) in
   let inter := oq_ireq q && t64_eqb org (oq_rx q) in
-  o_from_server d && (48 <=? length b)%nat &&
+  o_from_server d && o_spao_ok d && (48 <=? length b)%nat &&
   (basic || inter) && o_meta_ok b &&
   (if oq_nts q then o_uid_ok d && o_auth_ok d else true) &&
   (* the reported server transmit time is the datagram's *)
